@@ -51,8 +51,10 @@ def rib_history(tier, seed):
     rounds = 25 if tier == 'quick' else 400
     fails, evals, distinct, samples = [], 0, set(), []
     for r in range(rounds):
-        kind = rnd.choice(['ebgp4', 'ibgp2'])
+        kind = rnd.choice(['ebgp4', 'ibgp2', 'addpath'])
         asn4 = kind != 'ibgp2'
+        ap = kind == 'addpath'
+        pid = (lambda: rnd.randint(1, 3)) if ap else (lambda: None)
         nb, neg = P.get_session(kind)
         nb.rib.incoming.clear_cache()
         want = {}
@@ -67,21 +69,26 @@ def rib_history(tier, seed):
             attrs = attrs_fixed if rnd.random() < 0.6 else W.origin(0) + W.as_path([65001], asn4) + W.next_hop() + W.med(rnd.randint(0, 3))
             parts = attrs
             if rnd.random() < 0.7:
-                parts += W.mp_reach(2, 1, nh6, W.prefix6(p6, 48))
-            wd = W.prefix4(p4, 16) if rnd.random() < 0.3 else b''
-            nl = W.prefix4(p4, 16) if not wd and rnd.random() < 0.7 else b''
+                parts += W.mp_reach(2, 1, nh6, W.prefix6(p6, 48, pid()))
+            wd = W.prefix4(p4, 16, pid()) if rnd.random() < 0.3 else b''
+            # with ADD-PATH one UPDATE may withdraw one path of a prefix and announce another path of the same prefix
+            nl = W.prefix4(p4, 16, pid()) if (ap or not wd) and rnd.random() < 0.7 else b''
             if rnd.random() < 0.2:
-                parts += W.mp_unreach(2, 1, W.prefix6(p6, 48))
+                parts += W.mp_unreach(2, 1, W.prefix6(p6, 48, pid()))
             body = W.update_body(wd, parts, nl)
             hist.append(body.hex())
-            exp = expected_update(body, asn4)
+            exp = expected_update(body, asn4, P.addpath_fn(kind))
+
+            def key(it):
+                return it['nlri'] + (' path-information ' + it['path-information'] if it.get('path-information') else '')
+
             for fam, items in exp['withdraw'].items():
                 for it in items:
-                    want.pop(it['nlri'], None)
+                    want.pop(key(it), None)
             for fam, by_nh in exp['announce'].items():
                 for nh, items in by_nh.items():
                     for it in items:
-                        want[it['nlri']] = {'nexthop': nh, 'med': exp['attribute'].get('med')}
+                        want[key(it)] = {'nexthop': nh, 'med': exp['attribute'].get('med')}
             o = P.observe(kind, body, clear_rib=False)
             if 'handler_error' in o or o.get('status') != 'ok':
                 fails.append({'what': f'history step failed: {str(o)[:200]}', 'input': {'kind': kind, 'history': hist}})
